@@ -15,6 +15,7 @@ class C17(Prop):
     lean_modules = ["NV.C17.Props", "NV.C17.Witness"]
     theorems = [
         "NV.C17.never_stale",
+        "NV.C17.never_stale_transitive",
         "NV.C17.fresh_binary_used",
         "NV.C17.swap_loop_correct",
         "NV.C17.perm_sort_correct",
@@ -29,7 +30,7 @@ class C17(Prop):
         "NV.C17.old_str_case_cmp_missorts",
         "NV.C17.old_patch_offset_negative",
         "NV.C17.old_config_id_blind",
-        "NV.C17.indirect_inherit_not_checked",
+        "NV.C17.old_indirect_inherit_not_checked",
     ]
     consts = [("switchCaseSize", "SWITCH_CASE_SIZE"), ("fSwitch", "F_SWITCH"), ("nameInherited", "NAME_INHERITED"),
               ("indexStartNone", "INDEX_START_NONE"), ("sizeofProgram", "sizeof(program_t)"),
